@@ -46,9 +46,13 @@ def rotate_case(case: Dict[str, Any], cut: int) -> Dict[str, Any]:
     length = case["L"]
     assert case["circ"]
     genes = []
-    for start, end, strand in case["genes"]:
+    for gene in case["genes"]:
+        start, end, strand = gene[0], gene[1], gene[2]
         new_start = (start - cut) % length
-        genes.append([new_start, new_start + (end - start), strand])
+        turned = [new_start, new_start + (end - start), strand]
+        if len(gene) > 3:
+            turned.append([[low + new_start - start, high + new_start - start] for low, high in gene[3]])
+        genes.append(turned)
     new = dict(case)
     new["genes"] = genes
     return new
@@ -58,9 +62,16 @@ def valid_case(case: Dict[str, Any]) -> bool:
     """ structural sanity of a generated case (legal input of the pipeline) """
     length = case["L"]
     seen = set()
-    for start, end, strand in case["genes"]:
+    for gene in case["genes"]:
+        start, end, strand = gene[0], gene[1], gene[2]
         if not (0 <= start < length and 3 <= end - start < length and strand in (1, -1)):
             return False
+        if len(gene) > 3:
+            exons = gene[3]
+            if exons[0][0] != start or exons[-1][1] != end or sum(h - l for l, h in exons) < 3:
+                return False
+            if any(l >= h for l, h in exons) or any(a[1] >= b[0] for a, b in zip(exons, exons[1:])):
+                return False
         if end > length and not case["circ"]:
             return False
         key = (start, end)   # the record refuses two genes at one location
